@@ -2,6 +2,7 @@
 //! bounded spaces that the explorers cover exhaustively.
 
 pub mod ast;
+pub mod astdebug;
 pub mod corpus;
 pub mod dbg;
 pub mod enumerate;
